@@ -340,6 +340,8 @@ impl Problem {
             "t-c" => t - e.a,
             "y0y1" => y[0] * y[1],
             "y1" => y[1],
+            // strongly convex in time: exp(rate (t - a)) - 1
+            k if k.starts_with("expt:") => (k[5..].parse::<f64>().unwrap_or(1.0) * (t - e.a)).exp() - 1.0,
             _ => 1.0,
         }
     }
